@@ -134,6 +134,8 @@ pub fn run(a: &Args) {
 /// Two threads work on the same groups at the same time; once both are done the scope index must list exactly the groups that have members.
 /// (The C11 lock invariant - index and membership agree whenever a group's entry is released - is what makes this hold for every interleaving;
 /// this scenario looks for an interleaving in which its violation becomes visible through the public API.)
+static JOIN_EXIT_HELPERS: std::sync::OnceLock<Vec<ActorCell>> = std::sync::OnceLock::new();
+
 pub fn race(a: &Args) {
     let mode = a.str("mode").to_string();
     let k = a.usize("k").max(1);
@@ -225,6 +227,39 @@ pub fn race(a: &Args) {
                         let _ = hh.await;
                     });
                 }
+            }
+            "join_exit" => {
+                // one thread joins [h1..hk, a] to g0 (a last: the helpers keep the call busy between its first look at a and a's turn) while a is asked
+                // to stop; once a's exit has completed and the join has returned, a must be in no group (the join must re-check a's status under the
+                // lock the exit clean-up takes, or roll back)
+                let g0 = groups[0].clone();
+                let a_id = aa.get_id();
+                let helpers = JOIN_EXIT_HELPERS.get_or_init(|| {
+                    (0..k).map(|_| rt.block_on(Actor::spawn(None, Plain, ())).unwrap().0.get_cell()).collect::<Vec<ActorCell>>()
+                });
+                let mut list = helpers.clone();
+                list.push(aa.get_cell());
+                let bar = Arc::new(std::sync::Barrier::new(2));
+                let (sc2, g2, bar2) = (sc.clone(), g0.clone(), bar.clone());
+                let th = std::thread::spawn(move || {
+                    bar2.wait();
+                    pg::join_scoped(sc2, g2, list);
+                });
+                bar.wait();
+                if it % 2 == 0 {
+                    aa.stop(None);
+                } else {
+                    aa.kill();
+                }
+                rt.block_on(async {
+                    let _ = ah.await;
+                });
+                th.join().unwrap();
+                if pg::get_scoped_members(&sc, &g0).iter().any(|c| c.get_id() == a_id) && bad.len() < 4 {
+                    bad.push(format!("iteration {} (join racing with the exit): the stopped actor is still a member of {}", it, g0));
+                }
+                pg::leave_scoped(sc.clone(), g0.clone(), helpers.clone());
+                pg::leave_scoped(sc.clone(), g0.clone(), vec![aa.get_cell()]);
             }
             "last_leave_join" => {
                 // a is a member of g0 only; one thread makes it leave g0 (its last relation) while another joins it to g1; then a exits:
